@@ -254,12 +254,29 @@ def gen_C05(seed):
         for d_ in range(n_):
             A[d_ * n_ + d_] = round(A[d_ * n_ + d_] + shift, 6)
         prob["params"]["A"] = A
+    long_decay = False
+    if method_family(s["method"]) == "explicit_adaptive" and prob["dtype"] != "float32" and r.random() < 0.18:
+        # long contraction: the solution shrinks by e^-8 .. e^-16 over the span in a few dozen (large) steps, rtol*|y| dominates atol to the
+        # very end: the tolerance scale has to follow the solution down step by step
+        long_decay = True
+        n_ = r.choice([1, 1, 2, 3])
+        lam = r.uniform(8.0, 16.0) / L
+        M = [[r.uniform(-1.0, 1.0) * lam for _ in range(n_)] for _ in range(n_)]
+        A = [[(M[i][j] - M[j][i]) * 0.5 - (lam if i == j else 0.0) for j in range(n_)] for i in range(n_)]
+        prob.clear()
+        prob.update({"family": "linear", "dtype": r.choice(["float64", "float64", "float64", "longdouble"]), "shape": [n_],
+                     "params": {"A": [round(direction * A[i][j], 6) for i in range(n_) for j in range(n_)]},
+                     "y0": [round(r.choice([-1, 1]) * r.uniform(0.5, 2.0), 4) for _ in range(n_)]})
+        s["method"] = r.choice(["RK8713MSolver", "RK8713MSolver", "RK108Solver", "RK108Solver", "RK1412Solver", "RK45CKSolver", "DOPRI45"])
+        s["rtol"] = float("%.2e" % (10 ** r.uniform(-8.0, -3.5)))
+        s["atol"] = float("%.2e" % (s["rtol"] * 1e-10))
+        s["dt"] = float("%.4g" % (L * r.choice([1e-4, 1e-3, 1e-2, 2.0]))) * r.choice([1, 1, -1])
     ops = [{"op": "integrate"}]
     if r.random() < 0.25:
         mid = round(s["t0"] + direction * L * r.uniform(0.2, 0.8), 6)
         ops = [{"op": "integrate", "t": mid}, {"op": "integrate"}]
     scn["ops"] = ops
-    if r.random() < 0.5:
+    if r.random() < 0.5 and not long_decay:
         # fault-injecting configuration: transient spikes force rejections
         rf = sub(seed, "faults")
         stages = {"RK1412Solver": 35, "RK108Solver": 17, "RK8713MSolver": 13, "RK45CKSolver": 6, "HeunEulerSolver": 2, "DOPRI45": 7}.get(s["method"], 8)
